@@ -54,6 +54,13 @@ func c19collect(b *ast.Block, depth int, localNames map[string]bool, out *[]c19d
 				switch x := v.(type) {
 				case *ast.NameExp:
 					if localNames[x.Name] {
+						// a local assigned a table constructor later on (forward-declared dispatch table): its
+						// function fields are declarations
+						if i < len(st.ExpList) && depth == 0 {
+							if tc, ok := st.ExpList[i].(*ast.TableConstructorExp); ok {
+								c19fields(x.Name, tc, true, false, out)
+							}
+						}
 						continue
 					}
 					isFn := false
@@ -235,6 +242,8 @@ var c19templates = []string{
 	/* 10 */ "\x01r = {} function \x01r.lookup(id) end\n\x02c = { a = 1 } \x02c.k = function() end function \x02c:m() end\n",
 	// locals carrying a Lua 5.4 attribute
 	/* 11 */ "local \x01a <const> = 3\nlocal \x02h <close> = nil\nlocal \x03k <const>, \x04m <const> = 1, 2\nlocal \x05e <const> = function(err) end\nlocal \x06t <const> = { n = 1 }\n",
+	// a forward-declared local that is later assigned a table of functions (dispatch table)
+	/* 12 */ "local \x01c\nlocal function dsp(n) return \x01c[n] end\n\x01c = { \x02s = function(p) end, \x03t = function() end }\nlocal \x04e, \x05f\n\x05f = { \x06u = function() end }\n",
 }
 
 func VerifRun_C19() {
